@@ -105,11 +105,20 @@ def placement(sx, B):
     original = {r: {k: v.copy() for k, v in t.items()} for r, t in templates.items()}
     angle_sets = []
 
+    current = {"key": None}
+    angles_of = {}
+
     def minimize(fun, x0, method=None, options=None):
         k = len(angle_sets)
         ang = [sx.real("angle%d_%s" % (k, a)) for a in "xyz"]
         angle_sets.append(ang)
+        angles_of[current["key"]] = ang
         return {"x": ang}
+    real_orient = backmap.orient_template
+
+    def orient(meta_molecule, current_node, template, built_nodes):
+        current["key"] = (id(meta_molecule), current_node)
+        return real_orient(meta_molecule, current_node, template, built_nodes)
 
     class _O:
         pass
@@ -131,7 +140,7 @@ def placement(sx, B):
             nd["position"] = np.array([sx.real("cg%d_%s" % (k, a)) for a in "xyz"], dtype=object)
             k += 1
     shim = NP(random=_R)
-    with patched(backmap, np=shim, scipy=sc), patched(lf, np=NP()):
+    with patched(backmap, np=shim, scipy=sc, orient_template=orient), patched(lf, np=NP()):
         for meta in top.molecules:
             backmap.Backmap(fudge_coords=fudge).run_molecule(meta)
     seen_r4 = 0
@@ -152,10 +161,14 @@ def placement(sx, B):
             n = len(atoms)
             # (1) each atom takes factor x (R applied to the template vector of its own atom name), R being the real
             #     rotation matrix for the angles the optimiser returned for this residue
-            ang = angle_sets[res_idx]
+            ang = angles_of.get((id(meta), node))
             res_idx += 1
-            with patched(lf, np=NP()):
-                R = lf._rotate_xyz(eye, ang[0], ang[1], ang[2])
+            if ang is None:
+                # the code did not consult the optimiser for this residue (nothing to orient against): the identity is a proper rotation too
+                R = eye
+            else:
+                with patched(lf, np=NP()):
+                    R = lf._rotate_xyz(eye, ang[0], ang[1], ang[2])
             for i in range(n):
                 for ax in range(3):
                     want = cg[ax] + fudge * sum(R[ax][k] * tmpl[names[i]][k] for k in range(3))
@@ -200,3 +213,18 @@ def centred(sx, B):
     for k in keys[1:]:
         for ax in range(3):
             sx.claim(sx.eq(out[k][ax] - out[keys[0]][ax], coords[k][ax] - coords[keys[0]][ax]), "relative positions unchanged")
+
+
+
+import harness.C15 as _c15      # noqa: E402
+
+
+@condition("C06.templates_centred",
+           anchors=["polyply.src.generate_templates:GenerateTemplates.gen_templates", "polyply.src.generate_templates:map_from_CoG"],
+           rejects=(), selector_only=True, must_cover=["user volume", "generated"],
+           stubs=["as C15.precedence"], bounds={"quick": dict(), "thorough": dict()})
+def templates_centred(sx, B):
+    """Templates are centred whatever the build file supplies (the C15.precedence harness: real read_build_file +
+    GenerateTemplates with every combination of supplied templates and volumes): every stored template has zero centre of
+    geometry, so that the centre of a backmapped residue is the residue position."""
+    _c15.precedence(sx, B)
